@@ -3,6 +3,8 @@
 import sys, json
 pid, root = sys.argv[1], sys.argv[2]
 avoid = sys.argv[3:]
+import os
+style = os.environ.get('SEED_STYLE', '')
 p = [json.loads(l) for l in open('/verif/properties.jsonl')]
 p = [x for x in p if x['id'] == pid][0]
 wt = f"{root}/{pid}"
@@ -22,6 +24,8 @@ Requirements for the change:
 2. `go build ./...` succeeds and `go test -vet=off -count=1 ./...` still passes completely with the change (all existing tests, unedited).
 3. The property is genuinely violated by the changed code, but it needs something specific to manifest (a particular input, state, error path, interleaving, or configuration) — say exactly what.
 4. Write a demonstration: a NEW Go test file named zz_seed_demo_test.go in the relevant package (test function names starting with TestSeed), that FAILS with your change and PASSES on the original code. It may use in-package access. It must not need network and must finish within a minute.{' Avoid these already-explored ideas: ' + '; '.join(avoid) + '.' if avoid else ''}
+
+{(style + chr(10)) if style else ''}
 
 Deliver, inside the worktree, a directory {wt}/_seed/ containing:
   patch.diff  — output of `git diff` for the source change only (not the demo test file),
